@@ -376,6 +376,7 @@ pub fn run_plain(cap: &mut Capture, c: &DbgCase) -> String {
 
 /// Run the session on the real assembler + debugger.
 pub fn run_debug(cap: &mut Capture, c: &DbgCase) -> DbgObs {
+    let _watch = crate::watch::Guard::new(&c.request());
     set_features(c.stack);
     lace::set_minimal(!c.nm);
     lace::reset_state();
@@ -687,7 +688,68 @@ fn small_programs() -> Vec<(u16, Vec<u16>, bool, &'static str)> {
         (0x3000, vec![0x5020, 0x1025, 0x2204, 0x7040, 0x2203, 0x7040, 0xF025, 0x2FFF, 0xFE00], false, "store-outside"),
         // high origin
         (0x9000, vec![0x1021, 0x1021, 0x4801, 0xF025, 0x1262, 0xC1C0], false, "high-origin"),
+        // calls whose target is their own return address (JSR +0, JSRR to PC+1, CALL +0): after
+        // the one instruction PC already is the return address
+        (0x3000, vec![0x1021, 0x4800, 0x1021, 0xF025], false, "jsr-next"),
+        (0x3000, vec![0xE201, 0x4040, 0x1021, 0xF025], false, "jsrr-next"),
+        (0x3000, vec![0x1021, 0xDC00, 0x1021, 0xF025], true, "call-next"),
+        // the first instruction stores outside user space and changes no register and no flag
+        (0x3000, vec![0x7E00, 0x1021, 0xF025], false, "store-low-first"),
+        (0x3000, vec![0x3E01, 0xF025, 0xF025], false, "store-self-first"),
     ]
+}
+
+
+/// Directed sessions over every small program (run first, on shard 0): the resuming commands
+/// issued at each of the first few instructions, and `reset` after putting PC back by hand.
+fn directed(tag: &'static str) -> Vec<(DbgCase, &'static str)> {
+    let mut out = Vec::new();
+    let mut rng = Rng::new(0xD1EC7ED);
+    for (orig, words, stack, kind) in small_programs() {
+        for k in 0..4u16 {
+            for variant in 0..3 {
+                let p = Prog { orig, words: words.clone(), inp: vec![], stack, minimal: true, kind };
+                let mut c = decorate(&mut rng, &p, tag, vec![], 30_000);
+                c.breaks.clear();
+                let mut cmds = Vec::new();
+                if k > 0 {
+                    cmds.push(Cmd::StepInto(k));
+                }
+                match tag {
+                    "D12" => {
+                        match variant {
+                            0 => cmds.push(Cmd::Goto(Loc::Addr(orig))),
+                            1 => {}
+                            _ => {
+                                cmds.push(Cmd::StepOver);
+                                cmds.push(Cmd::Goto(Loc::Addr(orig)));
+                            }
+                        }
+                        cmds.push(Cmd::Reset);
+                        cmds.push(Cmd::Exit);
+                    }
+                    _ => {
+                        cmds.push(match variant {
+                            0 => Cmd::StepOver,
+                            1 => Cmd::StepOut,
+                            _ => Cmd::StepInto(1),
+                        });
+                        cmds.push(Cmd::Registers);
+                        cmds.push(Cmd::StepOver);
+                        cmds.push(Cmd::Registers);
+                        cmds.push(Cmd::Continue);
+                        if variant == 1 {
+                            cmds.push(Cmd::Exit);
+                        }
+                    }
+                }
+                c.cmds = cmds;
+                c.nm = variant == 2 && k == 1;
+                out.push((c, kind));
+            }
+        }
+    }
+    out
 }
 
 fn pick_program(rng: &mut Rng) -> Prog {
@@ -850,6 +912,15 @@ pub fn run_prop(o: &crate::Opts, tag: &'static str) {
     let mut kinds: std::collections::BTreeMap<String, u64> = Default::default();
     let mut verdicts: std::collections::BTreeMap<String, u64> = Default::default();
     let mut samples = Vec::new();
+    if o.shard == 0 && tag != "D13" {
+        for (c, kind) in directed(tag) {
+            let obs = run_debug(&mut cap, &c);
+            let v = if obs.line == "panic" { "-".to_string() } else { verdict(&mut cap, tag, &c, &obs) };
+            *kinds.entry(format!("directed-{}:{}", kind, obs.line.split(' ').next().unwrap_or(""))).or_default() += 1;
+            *verdicts.entry(v.clone()).or_default() += 1;
+            sink.put(&c.request(), &format!("{} | {}", obs.line, v));
+        }
+    }
     for k in 0..per {
         if tag == "D13" && k % 4 == 3 {
             // text-level probes: location spellings whose offset or address does not fit 16 bits
@@ -1045,6 +1116,7 @@ impl TextCase {
 /// Like `run_debug`, with the script as text; `CommandError` lines are counted, not compared
 /// line by line (they are printed inside `read_from`, which the debugger model does not see).
 pub fn run_text(cap: &mut Capture, t: &TextCase) -> String {
+    let _watch = crate::watch::Guard::new(&t.request());
     let c = &t.base;
     set_features(c.stack);
     lace::set_minimal(true);
